@@ -62,7 +62,8 @@ Param Hist::genParam(const std::string& name, std::string* descr) {
 bool Hist::opSetRate(bool analog) {
     static const float prs[] = {50.f, 100.f, 120.f, 200.f, 29.97f, 59.94f, 60.f, 250.f, 1000.f, 29.5f, 59.5f, 100.25f, 100.5f, 0.5f, 0.25f, 0.999f, 120.75f};
     float pr = float0(prev, "POINT", "RATE"); float r;
-    if (!analog) { r = prs[rng.below(sizeof prs / sizeof prs[0])]; if (rng.chance(6)) r = 0.f; }
+    float arNow = float0(prev, "ANALOG", "RATE");
+    if (!analog) { r = prs[rng.below(sizeof prs / sizeof prs[0])]; if (arNow != 0.f && !wild) r = arNow / (float)rng.range(1, (int)o.geti("maxsub", 6)); /* keep the sub-frame ratio small once the analog rate is known */ if (rng.chance(6)) r = 0.f; }
     else { float base = pr != 0.f ? pr : 100.f; r = base * (float)rng.range(1, (int)o.geti("maxsub", 6)); if (rng.chance(5)) r = 0.f; else if (rng.chance(7)) r = base * 0.4f; }   // 0.4: an analog rate below half the point rate (ratio rounds to 0)
     // once frames are stored the sub-frame count is fixed by the data: a disciplined caller keeps ANALOG:RATE = POINT:RATE x sub-frames
     if (!wild && !prev.frames.empty()) {
